@@ -10,6 +10,8 @@ use crate::par::HangReport;
 pub mod c05;
 pub mod c06;
 pub mod c07;
+pub mod c08;
+pub mod c12;
 
 pub struct Ctx {
     pub prop: String,
